@@ -180,8 +180,9 @@ struct W1
           w.fresh (1);
           e.push_back (w.model[op.i]); cx.required = s + 1; cx.first_mod = s;
           cx.expect_ret = s;
-          SVMC_CALL (cx, (cx.ret_idx = static_cast<int> (&v.emplace_back (v[static_cast<size_type> (op.i)]) - v.data ()),
-                          cx.has_ret = true));
+          T *rp = 0;
+          SVMC_CALL (cx, (rp = &v.emplace_back (v[static_cast<size_type> (op.i)]),
+                          cx.ret_idx = static_cast<int> (rp - v.data ()), cx.has_ret = true));
           return true;
         }
         case OP_INS_C:
@@ -360,8 +361,9 @@ struct W1
       {
         int a = w.fresh (1);
         e.push_back (a); cx.required = s + 1; cx.first_mod = s; cx.expect_ret = s;
-        SVMC_CALL (cx, (cx.ret_idx = static_cast<int> (&v.emplace_back (EmplaceArg<T>::make (a)) - v.data ()),
-                        cx.has_ret = true));
+        T *rp = 0;
+        SVMC_CALL (cx, (rp = &v.emplace_back (EmplaceArg<T>::make (a)),
+                        cx.ret_idx = static_cast<int> (rp - v.data ()), cx.has_ret = true));
         return true;
       }
       case OP_INS_M:
@@ -1150,6 +1152,7 @@ struct W1
     bool                            stopped;
     bool                            harness_error;
     std::FILE                      *dumpf;
+    std::FILE                      *emitf;
     std::set<long>                  crash_classes;
 
     struct StateRec { int size, cap; History hist; bool post_fault; };
@@ -1158,7 +1161,7 @@ struct W1
 
     Explorer (const Options& o, const std::set<std::uint64_t>& sk, std::uint64_t stop)
       : opt (o), skip (sk), seq (0), stop_at (stop), t0 (now_s ()), stopped (false),
-        harness_error (false), dumpf (0) { }
+        harness_error (false), dumpf (0), emitf (0) { }
 
     static int key_of (int size, int cap) { return size * 4096 + cap; }
 
@@ -1364,6 +1367,8 @@ struct W1
     {
       if (! opt.dump.empty ())
         dumpf = std::fopen (opt.dump.c_str (), "w");
+      if (! opt.emit.empty ())
+        emitf = std::fopen (opt.emit.c_str (), "w");
 
       StateRec init;
       init.size = 0; init.cap = static_cast<int> (N); init.post_fault = false;
@@ -1386,6 +1391,8 @@ struct W1
           note_outcome (cur.size, cur.cap, op, r0);
           gate (r0, "0");
           info (r0, op);
+          if (emitf && ! r0.violated && r0.exc == EX_NONE)
+            emit_trace (emitf, cur.hist, op);
           if (st.transitions % 20011 == 1 && sink.samples.size () < 12)
             sink.samples.push_back ("from (size " + itos (cur.size) + ", capacity " + itos (cur.cap) + ") reached by ["
                                     + history_describe (cur.hist) + "] apply " + op_describe (op) + " => (size "
@@ -1443,6 +1450,8 @@ struct W1
       st.wall = now_s () - t0;
       if (dumpf)
         std::fclose (dumpf);
+      if (emitf)
+        std::fclose (emitf);
     }
   };
 
